@@ -56,7 +56,7 @@ pub fn text_of(spec: &Spec, toks: &[usize], splice: Option<usize>) -> (String, u
         if i > 0 {
             s.push(' ');
         }
-        s.push_str(spec.terminals.get(*t).map(|x| x.as_str()).unwrap_or("@"));
+        s.push_str(spec.sample(*t));
         if splice == Some(i + 1) {
             at = s.len();
             s.push('\u{1}');
@@ -299,7 +299,7 @@ pub fn check_c17(w: &World, s: &dyn Sut, toks: &[usize], shape: u8, _rng: &mut R
         }
     }
     // (d) built-in lexer: an unmatchable byte at every token boundary
-    if var.builtin {
+    if var.builtin && !spec.empty_match {
         let base_consumes_all = matches!(base.out, Ok(Outcome::Ok(_)) | Ok(Outcome::Eof { .. }));
         for b in 0..=toks.len() {
             let (_, at) = text_of(spec, toks, Some(b));
@@ -358,7 +358,7 @@ pub fn decorated_text(spec: &Spec, toks: &[usize], style: u8) -> (String, usize)
         if i > 0 {
             s.push_str(sep);
         }
-        s.push_str(spec.terminals.get(*t).map(|x| x.as_str()).unwrap_or("@"));
+        s.push_str(spec.sample(*t));
         end = s.len();
     }
     s.push_str(trail);
